@@ -331,6 +331,23 @@ pub fn c04(cx: &mut Ctx) {
         cx.op("canproceed");
         cx.op("proceed");
     }
+    // declared lengths just beyond u64 (and far beyond): never a body of some wrapped-around length
+    for cl in ["18446744073709551616", "18446744073709551617", "18446744073709551618", "18446744073709551619", "36893488147419103232", "99999999999999999999", "184467440737095516150"] {
+        for api in 0..2 {
+            cx.case("toobig");
+            let args = format!("POST HTTP/1.1 http://a.test/p {}", super::hdrs(&[("content-length", cl.as_bytes())]));
+            if api == 0 {
+                if cx.rec.new_flow(&args) != "ok" { continue; }
+                cx.op("proceed"); cx.op("write 4096"); cx.op("canproceed"); cx.op("proceed");
+                if cx.rec.state() == "sendBody" { bwrite(cx, 0, 2, 64); cx.op("canproceed"); bwrite(cx, 0, 0, 8); cx.op("canproceed"); }
+            } else {
+                if cx.rec.new_call("body", &args) != "ok" { continue; }
+                cx.op("cbwrite - 4096");
+                cx.op(&format!("cbwrite {} 64", hx(b"ab")));
+                cx.op("cfinished");
+            }
+        }
+    }
     // the size ladder: a declared length of every rung, written in one call into exactly that much space, one byte
     // short, and one byte over
     for l in super::ladder(cx.thorough, 131072) {
